@@ -5,8 +5,27 @@ import os
 import sys
 import traceback
 
+import re
+
 sys.path.insert(0, os.path.dirname(os.path.abspath(__file__)))
 from vlib.common import Ctx, Broken, write_evidence, say  # noqa: E402
+
+# findings whose verdict rests on a wall-clock limit ("did not return within", "still open after", ...): on a loaded machine
+# slowness can look like a hang, so they are reported only if they show up again in a second run of the check with
+# time limits four times as long (a real hang, deadlock or missing reconnect does not go away with more time)
+TIMING = re.compile(r"hang|timeout|stuck|blocked-want-admit|no-wait-event|no-reconnect|no-recovery|not-closed|not-started|"
+                    r"handler-missing|handlers:|healthy|alive|recv-count|wrote:|conn-closed|sibling|channel-open|gate:|flag-not-visible")
+
+
+def time_scale():
+    """VERIF_TIMESCALE multiplies every wall-clock limit of the harnesses (harness/internal/tscale)."""
+    if os.environ.get("VERIF_TIMESCALE"):
+        return float(os.environ["VERIF_TIMESCALE"])
+    try:
+        load = os.getloadavg()[0] / (os.cpu_count() or 1)
+    except OSError:
+        load = 0.0
+    return round(min(10.0, 1.5 + max(0.0, load - 0.5) * 3.0), 2)
 
 
 def main():
@@ -21,6 +40,8 @@ def main():
         print("tier must be quick or thorough")
         return 2
     seed = int(os.environ.get("VERIF_SEED", "1") or "1")
+    scale = time_scale()
+    os.environ["VERIF_TIMESCALE"] = str(scale)
     ctx = Ctx(prop, tier, seed)
     try:
         mod = importlib.import_module("props." + prop.lower())
@@ -28,6 +49,23 @@ def main():
             mod.replay(ctx, replay)
         else:
             mod.run(ctx)
+            timing = [v for v in ctx.violations if TIMING.search(v["sig"])]
+            if timing:
+                say("%s %s: %d finding(s) depend on a time limit (%s); confirming with limits x4"
+                    % (prop, tier, len(timing), ", ".join(sorted({v["sig"] for v in timing}))[:300]))
+                os.environ["VERIF_TIMESCALE"] = str(min(20.0, scale * 4))
+                ctx2 = Ctx(prop, tier, seed)
+                ctx2.replay_prefix = "confirm-"
+                try:
+                    mod.run(ctx2)
+                    again = {v["sig"] for v in ctx2.violations}
+                finally:
+                    ctx2.cleanup()
+                    os.environ["VERIF_TIMESCALE"] = str(scale)
+                kept = [v for v in ctx.violations if not TIMING.search(v["sig"]) or v["sig"] in again]
+                ctx.coverage["timing_findings_not_reproduced_with_longer_limits"] = sorted({v["sig"] for v in ctx.violations} - {v["sig"] for v in kept})
+                ctx.violations = kept
+            ctx.coverage["time_scale"] = scale
         path = write_evidence(ctx)
         for k in ctx.known_hits:
             say("KNOWN-FINDING: property=%s %s (%d occurrences this run)" % (prop, k["what"], k.get("_count", 0)))
